@@ -99,6 +99,10 @@ pub struct Probes {
     pub reload_identity_checks: u64,
     #[serde(default)]
     pub verification_reloads: u64,
+    #[serde(default)]
+    pub lenient_reader_accepted: u64,
+    #[serde(default)]
+    pub hand_edited_file_refused: u64,
 }
 
 #[derive(Serialize, Deserialize, Clone, Debug, Default, PartialEq)]
@@ -270,6 +274,41 @@ fn apply_edit(wdir: &Path, e: &DiskEdit) -> Result<String, String> {
             let bit = e.pos as usize;
             b[bit / 8] ^= 1 << (bit % 8);
             how = format!("bit {bit} flipped");
+        }
+        // ---- hand edits that keep the file's meaning (scenario proper, never faults)
+        "pad-leading-ws" | "pad-trailing-ws" => {
+            let n = e.pos as usize;
+            let pad: Vec<u8> = (0..n).map(|i| if i % 61 == 60 { b'\n' } else { b' ' }).collect();
+            if e.kind == "pad-leading-ws" {
+                let mut nb = pad;
+                nb.extend_from_slice(&b);
+                b = nb;
+            } else {
+                b.extend_from_slice(&pad);
+            }
+            how = format!("{n} bytes of JSON whitespace {}", if e.kind == "pad-leading-ws" { "before the value" } else { "after the value" });
+        }
+        "reformat-pretty" => {
+            let v: serde_json::Value = serde_json::from_slice(&b).map_err(|e| format!("not JSON: {e}"))?;
+            b = serde_json::to_vec_pretty(&v).unwrap();
+            b.push(b'\n');
+            how = "re-serialised pretty-printed with sorted keys".to_string();
+        }
+        "unknown-field" => {
+            let mut v: serde_json::Value = serde_json::from_slice(&b).map_err(|e| format!("not JSON: {e}"))?;
+            match v.as_object_mut() {
+                Some(o) => {
+                    o.insert("comment".into(), serde_json::Value::String("edited by hand".into()));
+                }
+                None => return Err("not an object".into()),
+            }
+            b = serde_json::to_vec(&v).unwrap();
+            how = "extra top-level field \"comment\" added".to_string();
+        }
+        // ---- hand edits that make the file malformed
+        "append-garbage" => {
+            b.extend_from_slice(b"}{\"x\":1} trailing");
+            how = "non-whitespace bytes appended after the JSON value".to_string();
         }
         "flip" => {
             if b.is_empty() {
@@ -645,8 +684,12 @@ pub fn run_pass(ctx: &Ctx, sc: &Scenario, inject: bool) -> PassResult {
                     bump(&mut res.probes.disk_edits, &e.kind);
                     if e.fault {
                         disk_fault_on.insert(e.file.clone(), format!("{}: {how}", e.kind));
-                    } else {
+                    } else if e.kind.starts_with("set-") {
+                        // an out-of-range / malformed value put there by the scenario: must be refused
                         disk_fault_on.insert(e.file.clone(), format!("edit: {how}"));
+                    } else {
+                        // a hand edit: the expectation follows a strict decode of the edited bytes
+                        disk_fault_on.insert(e.file.clone(), format!("hand: {how}"));
                     }
                 }
                 Err(why) => {
@@ -913,6 +956,13 @@ pub fn run_pass(ctx: &Ctx, sc: &Scenario, inject: bool) -> PassResult {
                     }
                 }
             }
+            if step.kind == "B" && disk_fault_on.get(step.input.as_deref().unwrap_or("")).map(|w| w.starts_with("hand:")).unwrap_or(false) {
+                // a hand-edited (though still meaningful) file that the tool refuses is not an "accepted
+                // command line"; only an accepted one must be answered correctly
+                res.probes.hand_edited_file_refused += 1;
+                res.steps.push(rec);
+                continue;
+            }
             let lib_panics = cfg.as_ref().map(|c| reference(c).is_none());
             if !rec.fired.is_empty() {
                 if transp_fired && !hard_fired && lib_panics == Some(false) {
@@ -939,10 +989,12 @@ pub fn run_pass(ctx: &Ctx, sc: &Scenario, inject: bool) -> PassResult {
 
         // ---- exit 0: everything asked for is complete and correct (oracles 1, 2, 3, 5)
         let o5 = if rec.fired.is_empty() { "" } else { " [after injected fault(s)]" };
+        let mut p_suspect: Option<String> = None;
         if let Some(pa) = &p_after {
             res.probes.params_file_checks += 1;
             match pa {
-                Err(e) => viol!("O2-params-file", format!("exit 0 but the saved parameter file does not decode: {e}{o5}")),
+                // not yet a verdict: whether the file can be fed back is decided by feeding it back (below)
+                Err(e) => p_suspect = Some(e.clone()),
                 Ok(p) => {
                     // What the file *contains* is the tool's business: the property only promises that
                     // feeding it back reproduces the output (checked behaviourally below, O3). A decoded
@@ -1007,10 +1059,13 @@ pub fn run_pass(ctx: &Ctx, sc: &Scenario, inject: bool) -> PassResult {
         }
         // a verification reload of our own when the scenario does not reload this file next
         // (fault-free pass only): other hash seed, two days later, another zone
-        if !inject && step.save_params.as_ref().map(|n| after.contains_key(n)).unwrap_or(false) {
+        if p_suspect.is_some() && !step.save_params.as_ref().map(|n| after.contains_key(n)).unwrap_or(false) {
+            viol!("O2-params-file", format!("exit 0 but the parameter file asked for with -p does not exist{o5}"));
+        }
+        if (!inject || p_suspect.is_some()) && step.save_params.as_ref().map(|n| after.contains_key(n)).unwrap_or(false) {
             let pname = step.save_params.clone().unwrap();
             let next_reloads = sc.steps.get(k + 1).map(|n| n.kind == "B" && n.input.as_deref() == Some(pname.as_str())).unwrap_or(false);
-            if !next_reloads {
+            if !next_reloads || p_suspect.is_some() {
                 let hidden = Step {
                     kind: "B".into(),
                     bad: None,
@@ -1028,7 +1083,14 @@ pub fn run_pass(ctx: &Ctx, sc: &Scenario, inject: bool) -> PassResult {
                 let hout = if sink_file { std::fs::read(wdir.join("__reload_out.json")).unwrap_or_default() } else { hc.stdout.clone() };
                 let _ = std::fs::remove_file(wdir.join("__reload_out.json"));
                 if hc.exit != Some(0) || hc.timed_out {
-                    viol!("O3-not-reproducible", format!("feeding back the parameter file this step wrote fails (exit {:?}, signal {:?})", hc.exit, hc.signal));
+                    match &p_suspect {
+                        Some(e) => viol!("O2-params-file", format!("exit 0 but the saved parameter file does not decode ({e}) and feeding it back fails (exit {:?}, signal {:?}){o5}", hc.exit, hc.signal)),
+                        None => viol!("O3-not-reproducible", format!("feeding back the parameter file this step wrote fails (exit {:?}, signal {:?})", hc.exit, hc.signal)),
+                    }
+                } else if p_suspect.is_some() && hout == out_bytes {
+                    // a strict decode fails, yet the tool reads its own file back and reproduces the
+                    // output: a lenient reader; the promise is kept
+                    res.probes.lenient_reader_accepted += 1;
                 } else if hout != out_bytes {
                     let at = hout.iter().zip(out_bytes.iter()).position(|(a, b)| a != b).unwrap_or(hout.len().min(out_bytes.len()));
                     viol!("O3-not-reproducible", format!("feeding back the parameter file this step wrote (two days later, other zone and hash seed) does not reproduce its output (first difference at byte {at}; {} vs {} bytes)", out_bytes.len(), hout.len()));
